@@ -222,7 +222,133 @@ def story_writes(rel):
     return sorted(set(out))
 
 
+def _index_vars(test):
+    out = []
+    for n in ast.walk(test):
+        if isinstance(n, ast.Compare) and isinstance(n.left, ast.Name) and len(n.ops) == 1 and isinstance(n.ops[0], ast.Lt):
+            c = n.comparators[0]
+            if isinstance(c, ast.Call) and isinstance(c.func, ast.Name) and c.func.id == "len":
+                out.append(n.left.id)
+    return out
+
+
+def _advance(stmts, st, idx, exits, amounts):
+    """must-analysis: st = (advanced by a positive literal, advanced by anything) on every path reaching here,
+    or None when no path falls through.  Records the state at every `continue` of THIS loop."""
+    for s in stmts:
+        if st is None:
+            break
+        if isinstance(s, ast.AugAssign) and isinstance(s.target, ast.Name) and s.target.id in idx:
+            if isinstance(s.op, ast.Add) and isinstance(s.value, ast.Constant) and isinstance(s.value.value, int) and s.value.value >= 1:
+                st = (True, True)
+            elif isinstance(s.op, ast.Add) and isinstance(s.value, ast.Name):
+                st = (st[0], True)
+                amounts.add(s.value.id)
+            else:
+                amounts.add("?" + ast.unparse(s))          # anything else (i -= 1, i += f(x)) is not accepted
+        elif isinstance(s, ast.Assign) and any(isinstance(t, ast.Name) and t.id in idx for t in s.targets):
+            amounts.add("?" + ast.unparse(s))
+        elif isinstance(s, ast.If):
+            outs = [x for x in (_advance(s.body, st, idx, exits, amounts), _advance(s.orelse, st, idx, exits, amounts)) if x is not None]
+            st = None if not outs else (all(o[0] for o in outs), all(o[1] for o in outs))
+        elif isinstance(s, (ast.For, ast.While)):
+            # a nested loop may run zero times and its continue/break are its own; but an assignment to our index
+            # inside it would escape this analysis: record it as not accepted
+            for n in ast.walk(s):
+                if isinstance(n, (ast.Assign, ast.AugAssign)):
+                    tg = n.targets if isinstance(n, ast.Assign) else [n.target]
+                    if any(isinstance(t, ast.Name) and t.id in idx for t in tg):
+                        amounts.add("?nested " + ast.unparse(n))
+        elif isinstance(s, ast.Try):
+            outs = [_advance(s.body, st, idx, exits, amounts)] + [_advance(h.body, st, idx, exits, amounts) for h in s.handlers]
+            outs = [x for x in outs if x is not None]
+            st = None if not outs else (all(o[0] for o in outs), all(o[1] for o in outs))
+            if s.finalbody and st is not None:
+                st = _advance(s.finalbody, st, idx, exits, amounts)
+        elif isinstance(s, ast.With):
+            st = _advance(s.body, st, idx, exits, amounts)
+        elif isinstance(s, ast.Continue):
+            exits.append(("continue", s.lineno, st))
+            st = None
+        elif isinstance(s, (ast.Break, ast.Return, ast.Raise)):
+            st = None
+    return st
+
+
+def loop_paths():
+    """every `while` loop of the compiler: for each way of reaching the next iteration (a `continue` or the end
+    of the body), whether the loop index has been advanced on every path leading there"""
+    rows, consumers = [], []
+    files = []
+    for root in ("bardic/compiler/parsing", "bardic/compiler"):
+        for fn in sorted(os.listdir(os.path.join(REPO, root))):
+            if fn.endswith(".py"):
+                files.append(os.path.join(root, fn))
+    for rel in files:
+        tree = ast.parse(open(os.path.join(REPO, rel)).read())
+        for f in ast.walk(tree):
+            if not isinstance(f, ast.FunctionDef):
+                continue
+            own = [w for w in ast.walk(f) if isinstance(w, ast.While)]
+            for w in own:
+                idx = _index_vars(w.test)
+                exits, amounts = [], set()
+                out = _advance(w.body, (False, False), idx, exits, amounts)
+                if out is not None:
+                    exits.append(("end", w.body[-1].end_lineno, out))
+                for kind, line, st in exits:
+                    rows.append((rel, f.name, w.lineno, ",".join(idx), kind, line, st[0], st[1], sorted(amounts)))
+            # consumption results: `return <x>, <amount>` of functions whose result feeds an index
+            for r in ast.walk(f):
+                if isinstance(r, ast.Return) and isinstance(r.value, ast.Tuple) and len(r.value.elts) >= 2:
+                    last = r.value.elts[-1]
+                    expr = ast.unparse(last)
+                    if isinstance(last, ast.Name):
+                        # the latest simple assignment to that name before the return
+                        defs = [a for a in ast.walk(f) if isinstance(a, ast.Assign) and len(a.targets) == 1 and isinstance(a.targets[0], ast.Name)
+                                and a.targets[0].id == last.id and a.lineno <= r.lineno]
+                        if defs:
+                            expr = ast.unparse(max(defs, key=lambda a: a.lineno).value)
+                    if "consumed" in ast.unparse(last) or (isinstance(last, ast.Constant) and isinstance(last.value, int)):
+                        init = [ast.unparse(a.value) for a in ast.walk(f) if isinstance(a, ast.Assign) and len(a.targets) == 1
+                                and isinstance(a.targets[0], ast.Name) and a.targets[0].id == "i" and "start_index" in ast.unparse(a.value)]
+                        consumers.append((rel, f.name, r.lineno, expr, init[0] if init else ""))
+    # where each named amount comes from: `<x>, <amount> = callee(...)`
+    sources = []
+    for rel in files:
+        tree = ast.parse(open(os.path.join(REPO, rel)).read())
+        for a in ast.walk(tree):
+            if isinstance(a, ast.Assign) and isinstance(a.targets[0], ast.Tuple) and isinstance(a.value, ast.Call):
+                last = a.targets[0].elts[-1]
+                if isinstance(last, ast.Name) and ("consumed" in last.id or last.id == "nested_lines"):
+                    fn = a.value.func
+                    sources.append((rel, a.lineno, last.id, fn.id if isinstance(fn, ast.Name) else ast.unparse(fn)))
+    return rows, consumers, sources
+
+
 def regenerate():
+    rows, consumers, sources = loop_paths()
+    def qs(x):
+        return '"' + str(x).replace("\\", "/").replace('"', "'").replace("\n", " ") + '"'
+    def qb(b):
+        return "true" if b else "false"
+    _write("LoopPaths.lean",
+           "/-! GENERATED by harness/extract.py from /repo on every run — do not edit. -/\n"
+           "namespace Bardic.Extracted\n\n"
+           "/-- every way of reaching the next iteration of every `while` loop of the compiler:\n"
+           "    (file, function, loop line, index variables, continue/end, line, advanced by a positive literal on every path,\n"
+           "     advanced by something on every path, the non-literal amounts used in the loop) -/\n"
+           "def loopPaths : List (String × String × Nat × String × String × Nat × Bool × Bool × List String) := [\n" +
+           ",\n".join("  (" + ", ".join([qs(a), qs(b), str(c), qs(d), qs(e), str(f), qb(g), qb(h), "[" + ", ".join(qs(x) for x in i) + "]"]) + ")"
+                       for a, b, c, d, e, f, g, h, i in rows) + "\n]\n\n"
+           "/-- `return …, <amount>` of the functions that report how many lines they used:\n"
+           "    (file, function, line, the amount as an expression, how the scanning index was initialised) -/\n"
+           "def consumers : List (String × String × Nat × String × String) := [\n" +
+           ",\n".join("  (" + ", ".join([qs(a), qs(b), str(c), qs(d), qs(e)]) + ")" for a, b, c, d, e in consumers) + "\n]\n\n"
+           "/-- where each named amount comes from: (file, line, name, function called) -/\n"
+           "def amountSources : List (String × Nat × String × String) := [\n" +
+           ",\n".join("  (" + ", ".join([qs(a), str(b), qs(c), qs(d)]) + ")" for a, b, c, d in sources) + "\n]\n\n"
+           "end Bardic.Extracted\n")
     sw = story_writes("bardic/runtime/engine.py") + story_writes("bardic/templates/browser/engine_browser.py")
     def q2(x):
         return '"' + str(x).replace("\\", "/").replace('"', "'").replace("\n", " ") + '"'
